@@ -6,7 +6,7 @@ import ast
 
 from ..astutil import call_name, calls_in, dotted, guard_atoms, lexical_guards, unparse, walk_local
 from ..cfg import no_exc
-from ..report import Registry, sub
+from ..report import Registry, chain, sub
 
 R = Registry(
     "C52",
@@ -17,7 +17,11 @@ R = Registry(
         "a threading.local() and only touches its .value attribute, overriding every accessor of its base; "
         "scoped_session/async_scoped_session.remove closes the current scope's session only if present and then "
         "clears only the current scope; the registry kind follows scopefunc; the proxy re-resolves self.registry() "
-        "on every call and never caches a session on the scoped_session object."
+        "on every call and never caches a session on the scoped_session object; registry accessor contracts "
+        "(__call__ returns the slot's object on every path, has() is the positive presence test, set() stores its "
+        "argument, the constructor initialises what the accessors read); scoped_session.__call__ returns only a "
+        "session resolved from or registered with the registry, registers the factory product on the keyword path "
+        "and raises when keyword arguments meet an existing session."
     ),
     not_decided="behaviour under actual thread interleavings (dict.setdefault atomicity is CPython's); user scopefuncs.",
 )
@@ -37,6 +41,17 @@ def _is_scope_key(e, fn):
         defs = [n.value for n in walk_local(fn) if isinstance(n, ast.Assign)
                 and any(isinstance(t, ast.Name) and t.id == e.id for t in n.targets)]
         return bool(defs) and all(unparse(d).replace(" ", "") == "self.scopefunc()" for d in defs)
+    return False
+
+
+def _is_created(e, fn):
+    """expression is self.createfunc() or a local bound (only) to self.createfunc() in fn"""
+    if unparse(e).replace(" ", "") == "self.createfunc()":
+        return True
+    if isinstance(e, ast.Name):
+        defs = [n.value for n in walk_local(fn) if isinstance(n, ast.Assign)
+                and any(isinstance(t, ast.Name) and t.id == e.id for t in n.targets)]
+        return bool(defs) and all(unparse(d).replace(" ", "") == "self.createfunc()" for d in defs)
     return False
 
 
@@ -78,7 +93,7 @@ def r1(ctx):
                 call = pm.get(p)
                 if isinstance(call, ast.Call) and call.func is p and p.attr in ("setdefault", "get", "pop") and call.args:
                     kind, keyexpr = p.attr, call.args[0]
-                    if p.attr == "setdefault" and not (len(call.args) == 2 and unparse(call.args[1]).replace(" ", "") == "self.createfunc()"):
+                    if p.attr == "setdefault" and not (len(call.args) == 2 and _is_created(call.args[1], f.node)):
                         prob = "setdefault default is not self.createfunc()"
                 else:
                     kind = p.attr
@@ -100,19 +115,66 @@ def r1(ctx):
               "atomic setdefault", f.loc)
 
 
+def _registry_storage(ctx, cls):
+    """[(value expr, class whose __init__ assigns it)] bound to self.registry by the constructor of `cls`, following
+    super().__init__(...) delegation; and the arguments of that delegation (for the message)"""
+    out, deleg = [], []
+    mro = ctx.index.mro(cls)
+    f = ctx.index.resolve_method(cls, "__init__")
+    seen = set()
+    while f is not None and f.key not in seen:
+        seen.add(f.key)
+        ctx.functions_analysed.add(f.key)
+        vals = [p.value for _, p, _ in _registry_uses(f.node)
+                if isinstance(p, ast.Assign) and any(unparse(t) == "self.registry" for t in p.targets)]
+        out.extend((v, f.cls) for v in vals)
+        nxt = None
+        for c in calls_in(f.node):
+            if call_name(c) == "super().__init__" and f.cls in mro:
+                deleg.append(c)
+                for k in mro[mro.index(f.cls) + 1:]:
+                    if "__init__" in k.methods:
+                        nxt = k.methods["__init__"]
+                        break
+        if vals:
+            break
+        f = nxt
+    return out, deleg
+
+
 @R.rule("C52-R2", floor=5, template="T-FLOW",
-        desc="ThreadLocalRegistry.registry is a threading.local() and is only accessed through its .value attribute; "
-             "every accessor of ScopedRegistry is overridden")
+        desc="the default registry is thread-LOCAL storage: the constructor chain of ThreadLocalRegistry binds "
+             "self.registry to a threading.local(), every accessor of ScopedRegistry is overridden and touches only "
+             "the .value attribute of that object")
 def r2(ctx):
-    cls = ctx.index.cls(TL)
+    cls = ctx.index.cls(TL)      # class (or file) gone: anchor vanished -> exit 2
     base = ctx.index.cls(SR)
     ctx.require(base in ctx.index.mro(cls), "ThreadLocalRegistry no longer derives from ScopedRegistry")
+    storage, deleg = _registry_storage(ctx, cls)
+    is_tl = bool(storage) and all(unparse(v).replace(" ", "") == "threading.local()" for v, _ in storage)
+    init = ctx.index.resolve_method(cls, "__init__")
+    if storage:
+        what = "; ".join(f"`{unparse(v)}` (assigned in {k.name}.__init__)" for v, k in storage)
+    else:
+        what = "never assigned by the constructor chain"
+    if deleg:
+        what += "".join(f", reached through `{unparse(c)}`" for c in deleg)
+    ctx.check(is_tl, f"{TL}.__init__",
+              f"the default registry is not thread-LOCAL storage: self.registry is {what}. A registry keyed by an "
+              f"identifier of the thread (idents are recycled) keeps the entry of a finished thread and hands it to the "
+              f"next thread with the same key; only threading.local() storage dies with its thread",
+              "threading.local()", init.loc if init else cls.loc)
     accessors = [m for m, f in base.methods.items() if m != "__init__" and _registry_uses(f.node)]
     for m in sorted(accessors):
         f = cls.methods.get(m)
         key = f"{TL}.{m}"
         if f is None:
-            ctx.violation(key, f"accessor {m} is inherited from ScopedRegistry: it would index the threading.local like a dict", cls.loc)
+            if is_tl:
+                msg = f"accessor {m} is inherited from ScopedRegistry: it would index the threading.local like a dict"
+            else:
+                msg = (f"accessor {m} is inherited from ScopedRegistry: it files the object in a shared dict under "
+                       f"self.scopefunc() instead of in per-thread storage")
+            ctx.violation(key, msg, cls.loc)
             continue
         ctx.functions_analysed.add(f.key)
         probs = []
@@ -124,10 +186,6 @@ def r2(ctx):
                 continue
             probs.append(f"`{unparse(p)[:60]}` uses the thread-local other than through .value")
         ctx.check(not probs, key, "; ".join(probs), "only .value of the threading.local", f.loc)
-    f = cls.methods.get("__init__")
-    ctx.require(f is not None, "ThreadLocalRegistry.__init__ missing")
-    ok = any(isinstance(p, ast.Assign) and unparse(p.value).replace(" ", "") == "threading.local()" for _, p, _ in _registry_uses(f.node))
-    ctx.check(ok, f"{TL}.__init__", "registry is not a threading.local() created per registry", "threading.local()", f.loc)
 
 
 def _clear_impl_ok(f, threadlocal):
@@ -174,9 +232,11 @@ def r3(ctx):
                 probs.append("close() can run after clear() (it would close a newly created session)")
         ctx.check(not probs, f.key, "; ".join(probs), "has() -> close(); clear()", f.loc)
     for key_, tl in ((SR, False), (TL, True)):
-        f = ctx.func(f"{key_}.clear")
-        good, why = _clear_impl_ok(f, tl)
-        ctx.check(good, f.key, why, "deletes only the current scope's entry", f.loc)
+        f = ctx.method(key_, "clear")     # through the MRO: an inherited clear() is judged as what it is
+        own = f.cls is not None and f.cls.key == key_
+        good, why = _clear_impl_ok(f, tl and own)
+        ctx.check(good, f"{key_}.clear", why, "deletes only the current scope's entry"
+                  + ("" if own else f" (inherited from {f.cls.name}; storage kind is C52-R2's)"), f.loc)
 
 
 @R.rule("C52-R4", floor=8, template="T-TABLE",
@@ -236,13 +296,348 @@ def r4(ctx):
         pmc = c.module.parents()
         sets = [x for x in calls_in(c.node) if (call_name(x) or "") == "self.registry.set"]
         probs = []
+        gc = ctx.cfg(c)
         for x in sets:
-            atoms = guard_atoms(lexical_guards(pmc, x, stop=c.node))
-            if ("self.registry.has()", False) not in atoms:
+            # dominating branch outcomes on the CFG (an `if has(): raise` without else counts)
+            if ("self.registry.has()", False) not in _atoms_at(gc, x):
                 probs.append("registry.set() of a custom-configured session is not restricted to `not registry.has()`")
         if not any((call_name(x) or "") == "self.registry" for x in calls_in(c.node)):
             probs.append("the no-argument path does not resolve self.registry()")
         ctx.check(not probs, c.key, "; ".join(probs), "kw -> only when absent; else registry()", c.loc)
+
+
+
+# -------------------------------------------------------------------------------------- C52-R5 / C52-R6
+# What the accessors must DO with the current scope's slot (R1/R2 only decide which slot they touch).
+
+def _is_slot(e, fn):
+    """expression designates the current scope's slot: self.registry[<scope key>] or self.registry.value"""
+    if isinstance(e, ast.Subscript) and unparse(e.value) == "self.registry":
+        return _is_scope_key(e.slice, fn)
+    return isinstance(e, ast.Attribute) and e.attr == "value" and unparse(e.value) == "self.registry"
+
+
+def _slot_store_nodes(g, fn, name):
+    """CFG nodes that store the local/parameter `name` into the current slot (incl. chained `v = slot = expr`)"""
+    out = []
+    for n in g.nodes:
+        st = n.stmt
+        if n.kind != "stmt" or not isinstance(st, ast.Assign):
+            continue
+        slot_t = [t for t in st.targets if _is_slot(t, fn)]
+        if not slot_t:
+            continue
+        if (isinstance(st.value, ast.Name) and st.value.id == name) or any(isinstance(t, ast.Name) and t.id == name for t in st.targets):
+            out.append(n.id)
+    return out
+
+
+def _presence(e, fn):
+    """+1 if e is true exactly when the current slot is occupied, -1 for the negation, None if not understood"""
+    if isinstance(e, ast.UnaryOp) and isinstance(e.op, ast.Not):
+        p = _presence(e.operand, fn)
+        return -p if p else None
+    if isinstance(e, ast.Call) and call_name(e) == "bool" and len(e.args) == 1:
+        return _presence(e.args[0], fn)
+    if isinstance(e, ast.Compare) and len(e.ops) == 1:
+        op, l, r = e.ops[0], e.left, e.comparators[0]
+        if isinstance(op, (ast.In, ast.NotIn)) and unparse(r) == "self.registry" and _is_scope_key(l, fn):
+            return 1 if isinstance(op, ast.In) else -1
+        if isinstance(op, (ast.Is, ast.IsNot)) and isinstance(r, ast.Constant) and r.value is None and isinstance(l, ast.Call):
+            nm = call_name(l) or ""
+            getter = (nm == "getattr" and len(l.args) == 3 and unparse(l.args[0]) == "self.registry"
+                      and isinstance(l.args[1], ast.Constant) and l.args[1].value == "value"
+                      and isinstance(l.args[2], ast.Constant) and l.args[2].value is None) \
+                or (nm == "self.registry.get" and 1 <= len(l.args) <= 2 and _is_scope_key(l.args[0], fn)
+                    and (len(l.args) == 1 or (isinstance(l.args[1], ast.Constant) and l.args[1].value is None)))
+            if getter:
+                return 1 if isinstance(op, ast.IsNot) else -1
+        return None
+    if isinstance(e, ast.Call) and call_name(e) == "hasattr" and len(e.args) == 2 and unparse(e.args[0]) == "self.registry" \
+            and isinstance(e.args[1], ast.Constant) and e.args[1].value == "value":
+        return 1
+    return None
+
+
+def _whole_registry_use(e, fn):
+    """e mentions self.registry other than through a single-slot operation of the current scope"""
+    for n, p, pm in _registry_uses(e):
+        if isinstance(p, ast.Subscript) and p.value is n and _is_scope_key(p.slice, fn):
+            continue
+        if isinstance(p, ast.Compare) and n in p.comparators and _is_scope_key(p.left, fn):
+            continue
+        if isinstance(p, ast.Attribute) and p.value is n and (p.attr == "value" or (
+                p.attr in ("get", "setdefault") and isinstance(pm.get(p), ast.Call) and pm[p].args and _is_scope_key(pm[p].args[0], fn))):
+            continue
+        if isinstance(p, ast.Call) and call_name(p) in ("hasattr", "getattr") and p.args and p.args[0] is n:
+            continue
+        return True
+    return False
+
+
+def _returns(g):
+    return [n for n in g.nodes if n.kind == "stmt" and isinstance(n.stmt, ast.Return)]
+
+
+def _falls_off(g):
+    """a normal path reaches the exit without passing a return statement (the call evaluates to None)"""
+    return g.witness([g.entry], [g.exit], avoid=[n.id for n in _returns(g)], edge_ok=no_exc)
+
+
+def _atoms_at(g, expr):
+    """branch outcomes (normalised atoms) that dominate every CFG node evaluating `expr` (early returns included)"""
+    nodes = g.nodes_containing(expr)
+    sets = [set(guard_atoms(g.edge_guards(i))) for i in nodes]
+    return set.intersection(*sets) if sets else set()
+
+
+def _param_names(fn):
+    return [a.arg for a in fn.args.posonlyargs + fn.args.args]
+
+
+def _init_chain(ctx, cls):
+    """__init__ of cls and the __init__s it delegates to with super().__init__(...)"""
+    out = []
+    mro = ctx.index.mro(cls)
+    f = ctx.index.resolve_method(cls, "__init__")
+    while f is not None and f not in out:
+        out.append(f)
+        nxt = None
+        if f.cls in mro and any(call_name(c) == "super().__init__" for c in calls_in(f.node)):
+            for k in mro[mro.index(f.cls) + 1:]:
+                if "__init__" in k.methods:
+                    nxt = k.methods["__init__"]
+                    break
+        f = nxt
+    return out
+
+
+def _uninitialised_reads(ctx, cls, methods):
+    """instance attributes read as self.X by `methods` that the constructor chain of cls does not assign on every
+    normal path (class-level values and methods in the MRO do not count as reads of instance state)"""
+    mro = ctx.index.mro(cls)
+
+    def classlevel(a):
+        for k in mro:
+            if a in k.methods or a in k.nested:
+                return True
+            if a in k.assigns and any(v is not None for v in k.assigns[a]):
+                # a real class-level value (annotation-only declarations are not in assigns)
+                return True
+        return False
+    reads = {}
+    for f in methods:
+        for n in walk_local(f.node):
+            if isinstance(n, ast.Attribute) and isinstance(n.ctx, ast.Load) and isinstance(n.value, ast.Name) and n.value.id == "self" \
+                    and not n.attr.startswith("__") and not classlevel(n.attr):
+                reads.setdefault(n.attr, f.name)
+    chain_ = _init_chain(ctx, cls)
+    missing = {}
+    for a, where in sorted(reads.items()):
+        ok = False
+        for f in chain_:
+            g = ctx.cfg(f)
+            stores = [n.id for n in g.nodes if n.kind == "stmt" and isinstance(n.stmt, (ast.Assign, ast.AnnAssign))
+                      and any(unparse(t) == f"self.{a}" for t in (n.stmt.targets if isinstance(n.stmt, ast.Assign) else [n.stmt.target]))
+                      and getattr(n.stmt, "value", None) is not None]
+            if stores and g.must_pass([g.entry], [g.exit], stores, edge_ok=no_exc) is None:
+                ok = True
+                break
+        if not ok:
+            missing[a] = where
+    return missing, reads
+
+
+@R.rule("C52-R5", floor=8, template="T-FLOW",
+        desc="registry accessor contracts, for ScopedRegistry and ThreadLocalRegistry (methods resolved through the MRO): "
+             "__call__ returns on every path the object held in (or just stored into) the current slot; has() is the "
+             "positive presence test of the current slot; set(obj) stores its argument into the current slot on every "
+             "path; the constructor initialises every attribute the accessors read, createfunc/scopefunc from the "
+             "parameters in call order")
+def r5(ctx):
+    for ck in (SR, TL):
+        cls = ctx.index.cls(ck)
+        # ---- __call__
+        f = ctx.method(ck, "__call__")
+        g = ctx.cfg(f)
+        probs = []
+        w = _falls_off(g)
+        if w is not None:
+            probs.append("a path falls off the end (returns None instead of the scope's object)")
+        for rn in _returns(g):
+            v = rn.stmt.value
+            if v is None or (isinstance(v, ast.Constant)):
+                probs.append(f"`{unparse(rn.stmt)}` does not return the scope's object")
+            elif _is_slot(v, f.node):
+                pass
+            elif isinstance(v, ast.Call) and call_name(v) == "self.registry.setdefault" and v.args and _is_scope_key(v.args[0], f.node):
+                pass
+            elif isinstance(v, ast.Name):
+                stores = _slot_store_nodes(g, f.node, v.id)
+                wit = g.always_preceded(rn.id, stores) if stores else ["no store"]
+                if wit is not None:
+                    probs.append(f"`return {v.id}` is reached without `{v.id}` having been stored into the current scope's slot "
+                                 f"(the caller gets an object the registry does not hold; the next call creates another one)")
+            else:
+                probs.append(f"`{unparse(rn.stmt)[:60]}` is not the current slot's content")
+        ctx.check(not probs, f"{ck}.__call__:returns-stored", "; ".join(probs), "every return hands out the slot's object", f.loc)
+        # ---- has
+        f = ctx.method(ck, "has")
+        g = ctx.cfg(f)
+        probs = []
+        if _falls_off(g) is not None:
+            probs.append("a path falls off the end (has() is None, i.e. always false)")
+        for rn in _returns(g):
+            v = _presence(rn.stmt.value, f.node) if rn.stmt.value is not None else None
+            if rn.stmt.value is None or isinstance(rn.stmt.value, ast.Constant):
+                probs.append(f"`{unparse(rn.stmt)}` is a constant, not the presence of the current scope's object")
+            elif v is None and _whole_registry_use(rn.stmt.value, f.node):
+                probs.append(f"`{unparse(rn.stmt.value)}` looks at the registry as a whole, not at the current scope's slot")
+            elif v is None:
+                ctx.error(f"{f.key}: presence test `{unparse(rn.stmt.value)}` not understood")
+            elif v < 0:
+                probs.append(f"`{unparse(rn.stmt.value)}` is the NEGATED presence test: remove() would skip close() for a live "
+                             f"session and create one just to close it when there is none")
+        ctx.check(not probs, f"{ck}.has:positive-presence", "; ".join(probs), "true iff the current slot is occupied", f.loc)
+        # ---- set
+        f = ctx.method(ck, "set")
+        g = ctx.cfg(f)
+        params = _param_names(f.node)
+        ctx.require(len(params) == 2, f"{f.key}: expected set(self, obj)")
+        stores = _slot_store_nodes(g, f.node, params[1])
+        wit = g.must_pass([g.entry], [g.exit], stores, edge_ok=no_exc) if stores else ["no store"]
+        ctx.check(wit is None, f"{ck}.set:stores-argument",
+                  f"set({params[1]}) can return without having stored `{params[1]}` into the current scope's slot "
+                  f"(a configured session handed out by scoped_session(**kw) would not be the scope's session)",
+                  "argument stored on every path", f.loc)
+        # ---- constructor wiring
+        accessors = [ctx.index.resolve_method(cls, m) for m in ("__call__", "has", "set", "clear")]
+        missing, reads = _uninitialised_reads(ctx, cls, [a for a in accessors if a is not None])
+        probs = [f"self.{a} (read by {where}) is not assigned on every path of the constructor" for a, where in missing.items()]
+        init = ctx.index.resolve_method(cls, "__init__")
+        ctx.require(init is not None, f"{ck}: no __init__")
+        if init.cls is cls:
+            iparams = _param_names(init.node)[1:]
+            expect = ["createfunc", "scopefunc"][:len(iparams)]
+            for pos, attr in enumerate(expect):
+                if attr not in reads:
+                    continue
+                vals = [n.value for n in walk_local(init.node) if isinstance(n, ast.Assign) and any(unparse(t) == f"self.{attr}" for t in n.targets)]
+                sup = [c for c in calls_in(init.node) if call_name(c) == "super().__init__"]
+                if vals and not all(isinstance(v, ast.Name) and v.id == iparams[pos] for v in vals):
+                    probs.append(f"self.{attr} is assigned `{unparse(vals[0])}`, not constructor parameter #{pos + 1} `{iparams[pos]}` "
+                                 f"(scoped_session passes the session factory first, the scope function second)")
+                elif not vals and not sup and attr not in missing:
+                    probs.append(f"self.{attr} is not assigned from the constructor parameter")
+        ctx.check(not probs, f"{ck}.__init__:wiring", "; ".join(probs), f"initialises {sorted(reads)}", init.loc)
+
+
+@R.rule("C52-R6", floor=8, template="T-PATH",
+        desc="scoped_session/async_scoped_session.__call__: every return hands out a name that was either resolved "
+             "from self.registry() or registered with self.registry.set(<it>) after being created by the factory with "
+             "the keyword arguments; with keyword arguments and a session present the call raises; the keyword "
+             "parameter selects the configure path; the constructor stores what the methods read")
+def r6(ctx):
+    for rel, cname in SCOPED:
+        cls = ctx.index.cls(f"{rel}::{cname}")
+        c = ctx.func(f"{cls.key}.__call__")
+        g = ctx.cfg(c)
+        pm = c.module.parents()
+        kwname = c.node.args.kwarg.arg if c.node.args.kwarg else None
+        ctx.require(kwname is not None, f"{c.key}: no **kw parameter")
+        # ---- returns-registered
+        probs = []
+        if _falls_off(g) is not None:
+            probs.append("a path falls off the end (returns None)")
+        for rn in _returns(g):
+            v = rn.stmt.value
+            if isinstance(v, ast.Call) and call_name(v) == "self.registry" and not v.args:
+                continue
+            if not isinstance(v, ast.Name):
+                probs.append(f"`{unparse(rn.stmt)[:60]}` does not return the scope's session")
+                continue
+            through = []
+            for n in g.nodes:
+                if n.kind != "stmt":
+                    continue
+                st = n.stmt
+                if isinstance(st, ast.Assign) and any(isinstance(t, ast.Name) and t.id == v.id for t in st.targets) \
+                        and isinstance(st.value, ast.Call) and call_name(st.value) == "self.registry" and not st.value.args:
+                    through.append(n.id)
+                elif isinstance(st, ast.Expr) and isinstance(st.value, ast.Call) and call_name(st.value) == "self.registry.set" \
+                        and len(st.value.args) == 1 and isinstance(st.value.args[0], ast.Name) and st.value.args[0].id == v.id:
+                    through.append(n.id)
+            wit = g.always_preceded(rn.id, through) if through else ["no registry()/registry.set()"]
+            if wit is not None:
+                probs.append(f"`return {v.id}` is reached without `{v.id}` coming from self.registry() or having been registered "
+                             f"with self.registry.set({v.id}): the caller gets a session the scope does not own "
+                             f"(path: {' -> '.join(wit[-3:])})")
+            # rebinding after registration
+            redefs = [n.id for n in g.nodes if n.kind == "stmt" and isinstance(n.stmt, (ast.Assign, ast.AugAssign, ast.AnnAssign))
+                      and any(isinstance(t, ast.Name) and t.id == v.id for t in (n.stmt.targets if isinstance(n.stmt, ast.Assign) else [n.stmt.target]))
+                      and n.id not in through]
+            after = g.reachable(through, edge_ok=no_exc, include_starts=False) if through else set()
+            if [i for i in redefs if i in after and rn.id in g.reachable([i], edge_ok=no_exc)]:
+                probs.append(f"`{v.id}` is rebound after it was resolved/registered")
+        ctx.check(not probs, f"{c.key}:returns-registered", "; ".join(probs), "returns registry() or the session just registered", c.loc)
+        # ---- the registered object is the factory's product for these keyword arguments
+        sets = [x for x in calls_in(c.node) if call_name(x) == "self.registry.set"]
+        probs = []
+        if not sets:
+            probs.append("no self.registry.set(): a session configured with keyword arguments is never registered for the scope")
+        for x in sets:
+            a = x.args[0] if len(x.args) == 1 else None
+            val = a
+            if isinstance(a, ast.Name):
+                defs = [n for n in g.nodes if n.kind == "stmt" and isinstance(n.stmt, ast.Assign)
+                        and any(isinstance(t, ast.Name) and t.id == a.id for t in n.stmt.targets)]
+                setn = g.nodes_containing(x)
+                fac = [n.id for n in defs if isinstance(n.stmt.value, ast.Call) and call_name(n.stmt.value) == "self.session_factory"
+                       and any(k.arg is None and isinstance(k.value, ast.Name) and k.value.id == kwname for k in n.stmt.value.keywords)]
+                if not fac or any(g.always_preceded(i, fac) is not None for i in setn):
+                    probs.append(f"self.registry.set({a.id}) does not always register the product of self.session_factory(**{kwname})")
+            elif not (isinstance(val, ast.Call) and call_name(val) == "self.session_factory"):
+                probs.append(f"self.registry.set(`{unparse(a) if a is not None else ''}`) is not fed by the session factory")
+            if (kwname, True) not in _atoms_at(g, x):
+                probs.append(f"self.registry.set() is not restricted to calls with keyword arguments (`if {kwname}:`)")
+        for x in calls_in(c.node):
+            if call_name(x) == "self.registry" and not x.args:
+                if (kwname, True) in _atoms_at(g, x):
+                    probs.append(f"self.registry() is resolved on the keyword-argument path: the arguments are silently ignored and "
+                                 f"the plain call no longer returns the scope's session")
+        ctx.check(not probs, f"{c.key}:kw-path-registers-factory-product", "; ".join(probs),
+                  f"if {kwname}: set(session_factory(**{kwname})) else registry()", c.loc)
+        # ---- conflict raises
+        probs = []
+        tests = []
+        for n in g.nodes:
+            if n.kind != "test":
+                continue
+            own = set(guard_atoms([(n.stmt.test, True)]))
+            if not any(a == "self.registry.has()" for a, _ in own):
+                continue
+            dom = set(guard_atoms(g.edge_guards(n.id)))
+            if (kwname, True) in dom and len(own) == 1:
+                tests.append((n, ("self.registry.has()", True) in own))
+            elif own == {(kwname, True), ("self.registry.has()", True)}:
+                tests.append((n, True))
+            elif (kwname, True) in dom or any(a == kwname for a, _ in own):
+                ctx.error(f"{c.key}: combined test `{unparse(n.stmt.test)}` on registry.has() not understood")
+        if not tests:
+            probs.append(f"registry.has() is not consulted on the keyword-argument path: a present session would be replaced")
+        for t, pol in tests:
+            lab = "true" if pol else "false"
+            starts = [b for b, l in g.succ[t.id] if l == lab]
+            if g.exit in starts or g.witness(starts, [g.exit], edge_ok=no_exc) is not None:
+                probs.append("with keyword arguments and a session already present the call returns normally instead of raising "
+                             "(the arguments are dropped or the scope's live session is replaced)")
+        ctx.check(not probs, f"{c.key}:kw-conflict-raises", "; ".join(probs), "has() under kw -> raise", c.loc)
+        # ---- constructor stores what the methods read
+        missing, reads = _uninitialised_reads(ctx, cls, [m for n, m in cls.methods.items() if n != "__init__"])
+        init = ctx.func(f"{cls.key}.__init__")
+        ctx.check(not missing, f"{init.key}:initialises-state",
+                  "; ".join(f"self.{a} (read by {w}) is not assigned on every path of the constructor" for a, w in missing.items()),
+                  f"initialises {sorted(reads)}", init.loc)
 
 
 # -------------------------------------------------------------------------------------- self-test
@@ -294,3 +689,92 @@ R.mutant("benign-remove-local", "orm/scoping.py",
          None)
 R.mutant("benign-threadlocal-getattr", UC,
          sub("        return hasattr(self.registry, \"value\")\n", "        return getattr(self.registry, \"value\", None) is not None\n"), None)
+
+# --- seeds (C52_1 is `scoped-call-check-then-assign` above)
+_TL_BODY = (
+    "    def __init__(self, createfunc: Callable[[], _T]):\n"
+    "        self.createfunc = createfunc\n"
+    "        self.registry = threading.local()\n"
+    "\n"
+    "    def __call__(self) -> _T:\n"
+    "        try:\n"
+    "            return self.registry.value  # type: ignore[no-any-return]\n"
+    "        except AttributeError:\n"
+    "            val = self.registry.value = self.createfunc()\n"
+    "            return val\n"
+    "\n"
+    "    def has(self) -> bool:\n"
+    "        return hasattr(self.registry, \"value\")\n"
+    "\n"
+    "    def set(self, obj: _T) -> None:\n"
+    "        self.registry.value = obj\n"
+    "\n"
+    "    def clear(self) -> None:\n"
+    "        try:\n"
+    "            del self.registry.value\n"
+    "        except AttributeError:\n"
+    "            pass\n"
+)
+R.mutant("seed-threadlocal-becomes-scoped-on-get-ident", UC,
+         sub(_TL_BODY, "    def __init__(self, createfunc: Callable[[], _T]):\n        super().__init__(createfunc, threading.get_ident)\n"),
+         "C52-R2")
+R.mutant("threadlocal-init-delegates-keeps-accessors", UC,
+         sub("        self.createfunc = createfunc\n        self.registry = threading.local()\n",
+             "        super().__init__(createfunc, threading.get_ident)\n"), "C52-R2")
+# --- C52-R5: accessor contracts (survivors of the generic mutation sweep)
+R.mutant("scoped-has-negated", UC,
+         sub("        return self.scopefunc() in self.registry\n", "        return self.scopefunc() not in self.registry\n"), "C52-R5")
+R.mutant("threadlocal-has-falls-off", UC,
+         sub("        return hasattr(self.registry, \"value\")\n", "        hasattr(self.registry, \"value\")\n"), "C52-R5")
+R.mutant("threadlocal-call-loses-store", UC,
+         sub("            val = self.registry.value = self.createfunc()\n", "            val = self.createfunc()\n"), "C52-R5")
+R.mutant("threadlocal-call-returns-none", UC,
+         sub("            val = self.registry.value = self.createfunc()\n            return val\n",
+             "            val = self.registry.value = self.createfunc()\n            return None\n"), "C52-R5")
+R.mutant("threadlocal-set-loses-store", UC,
+         sub("        self.registry.value = obj\n", "        pass\n"), "C52-R5")
+R.mutant("scoped-set-stores-other-object", UC,
+         sub("        self.registry[self.scopefunc()] = obj\n", "        self.registry[self.scopefunc()] = self.createfunc()\n"), "C52-R5")
+R.mutant("scopedregistry-init-loses-scopefunc", UC,
+         sub("        self.createfunc = createfunc\n        self.scopefunc = scopefunc\n", "        self.createfunc = createfunc\n"), "C52-R5")
+R.mutant("scopedregistry-init-swaps-functions", UC,
+         sub("        self.createfunc = createfunc\n        self.scopefunc = scopefunc\n",
+             "        self.createfunc = scopefunc\n        self.scopefunc = createfunc\n"), "C52-R5")
+# --- C52-R6: scoped_session.__call__
+R.mutant("call-kw-session-not-registered", "orm/scoping.py",
+         sub("                sess = self.session_factory(**kw)\n                self.registry.set(sess)\n",
+             "                sess = self.session_factory(**kw)\n"), "C52-R6")
+R.mutant("async-call-kw-session-not-registered", "ext/asyncio/scoping.py",
+         sub("                sess = self.session_factory(**kw)\n                self.registry.set(sess)\n",
+             "                sess = self.session_factory(**kw)\n"), "C52-R6")
+R.mutant("call-returns-none", "orm/scoping.py", sub("        return sess\n", "        return None\n"), "C52-R6")
+R.mutant("async-call-falls-off", "ext/asyncio/scoping.py", sub("        return sess\n", "        sess\n"), "C52-R6")
+R.mutant("call-kw-conflict-no-raise", "orm/scoping.py",
+         sub("                raise sa_exc.InvalidRequestError(\n                    \"Scoped session is already present; \"\n                    \"no new arguments may be specified.\"\n                )\n            else:\n                sess = self.session_factory(**kw)\n",
+             "                sess = self.registry()\n            else:\n                sess = self.session_factory(**kw)\n"), "C52-R6")
+R.mutant("call-kw-test-negated", "orm/scoping.py", sub("        if kw:\n", "        if not kw:\n"), "C52-R6")
+R.mutant("async-call-registers-unconfigured-session", "ext/asyncio/scoping.py",
+         sub("                sess = self.session_factory(**kw)\n", "                sess = self.session_factory()\n"), "C52-R6")
+R.mutant("init-loses-session-factory", "orm/scoping.py",
+         sub("        self.session_factory = session_factory\n\n        if scopefunc:\n", "        if scopefunc:\n"), "C52-R6")
+# benign
+R.mutant("benign-call-raise-without-else", "orm/scoping.py",
+         sub("                )\n            else:\n                sess = self.session_factory(**kw)\n                self.registry.set(sess)\n",
+             "                )\n            sess = self.session_factory(**kw)\n            self.registry.set(sess)\n"), None)
+R.mutant("benign-call-plain-path-first", "ext/asyncio/scoping.py",
+         sub("        if kw:\n            if self.registry.has():\n                raise sa_exc.InvalidRequestError(\n                    \"Scoped session is already present; \"\n                    \"no new arguments may be specified.\"\n                )\n            else:\n                sess = self.session_factory(**kw)\n                self.registry.set(sess)\n        else:\n            sess = self.registry()\n",
+             "        if not kw:\n            sess = self.registry()\n        elif self.registry.has():\n            raise sa_exc.InvalidRequestError(\n                \"Scoped session is already present; \"\n                \"no new arguments may be specified.\"\n            )\n        else:\n            sess = self.session_factory(**kw)\n            self.registry.set(sess)\n"),
+         None)
+R.mutant("benign-threadlocal-call-separate-store", UC,
+         sub("            val = self.registry.value = self.createfunc()\n            return val\n",
+             "            val = self.createfunc()\n            self.registry.value = val\n            return val\n"), None)
+R.mutant("benign-scoped-has-get-is-not-none", UC,
+         sub("        return self.scopefunc() in self.registry\n", "        return self.registry.get(self.scopefunc()) is not None\n"), None)
+R.mutant("benign-threadlocal-set-renamed-param", UC,
+         sub("    def set(self, obj: _T) -> None:\n        self.registry.value = obj\n", "    def set(self, value: _T) -> None:\n        self.registry.value = value\n"), None)
+R.mutant("benign-scoped-call-created-object-local", UC,
+         sub("            return self.registry.setdefault(key, self.createfunc())  # type: ignore[no-any-return] # noqa: E501\n",
+             "            obj = self.createfunc()\n            return self.registry.setdefault(key, obj)\n"), None)
+R.mutant("scoped-call-setdefault-foreign-default", UC,
+         sub("            return self.registry.setdefault(key, self.createfunc())  # type: ignore[no-any-return] # noqa: E501\n",
+             "            return self.registry.setdefault(key, self.scopefunc())\n"), "C52-R1")
